@@ -144,11 +144,16 @@ def run(pid, tier, seed):
                         jobs.append((None, s, tzs_, ("ok", None, ("now", off)), "now"))
             # rejections
             for bad in ["garbage", "2024-13-01", "2024-01-32", "2024-01-01T25:00:00", "2024-01-01T00:00:00 IST", "20240101T000000ACT", "+",
-                        "@", "+1x", "1d", "2024-01-01T00:00:00+99", "", "2024-01-01 00:00", "@+1d@", "+-1d"]:
+                        "@", "+1x", "1d", "2024-01-01T00:00:00+99", "", "2024-01-01 00:00", "@+1d@", "+-1d",
+                        # counts no integer holds, counts in digits that are not ASCII
+                        "+99999999999999999999d", "-99999999999999999999s", "+1d99999999999999999999h", "-18446744073709551616w",
+                        "+\uff11d", "-\u0661\u0662h"]:
                 if bad == "":
                     continue
                 jobs.append((bad, None, tzs_, ("reject",), "reject:unparseable"))
             jobs.append(("@+1d", "@-1d", tzs_, ("reject",), "reject:both-at"))
+            jobs.append(("2024-01-01T00:00:00", "@+99999999999999999999w", tzs_, ("reject",), "reject:unparseable"))
+            jobs.append(("@-1d99999999999999999999h", "2024-01-01T00:00:00", tzs_, ("reject",), "reject:unparseable"))
             jobs.append(("2024-01-02", "2024-01-01", tzs_, ("reject",), "reject:after>before"))
             jobs.append(("2024-01-01T00:00:01", "@-1s", tzs_, ("reject",), "reject:after>before"))
             # after later than before by less than a second / a millisecond / one microsecond; equal bounds are a valid window
